@@ -39,15 +39,24 @@ func c19History(k *fw.K) {
 	if r.Intn(2) == 0 {
 		nb = 1 + r.Intn(8)
 	}
+	long := k.Index%200 == 7 // a few histories with well over a thousand tiny batches on one object
+	if long {
+		nb = 1100 + r.Intn(600)
+	}
 	type batch struct{ P, T []float64 }
 	var batches []batch
 	for b := 0; b < nb; b++ {
 		n := 1 + r.Intn(50)
-		switch r.Intn(8) {
-		case 0, 1, 2, 3:
-			n = 1 + r.Intn(5)
-		case 4:
-			n = 100 + r.Intn(900) // batches far beyond the sizes the suite uses
+		switch q := r.Intn(8); {
+		case long:
+			n = 1 + r.Intn(3)
+		default:
+			switch q {
+			case 0, 1, 2, 3:
+				n = 1 + r.Intn(5)
+			case 4:
+				n = 100 + r.Intn(900) // batches far beyond the sizes the suite uses
+			}
 		}
 		p, t := make([]float64, n), make([]float64, n)
 		mode := r.Intn(4) // 0 mixed, 1 all match, 2 none match, 3 mixed
